@@ -2827,6 +2827,12 @@ bn_calc_jsf(bn_p a, bn_p b, size_t jsf_arr_size,
 		return (EOVERFLOW);
 	BN_RET_ON_ERR(bn_assign_init(&tmA, a));
 	BN_RET_ON_ERR(bn_assign_init(&tmB, b));
+	if (0 == tmA.digits) { /* num[0] is read below even if the number is zero. */
+		tmA.num[0] = 0;
+	}
+	if (0 == tmB.digits) {
+		tmB.num[0] = 0;
+	}
 
 	while ((0 == bn_is_zero(&tmA) || 0 != d0) ||
 	    (0 == bn_is_zero(&tmB) || 0 != d1)) {
